@@ -186,7 +186,9 @@ Proof.
                mapM_dict (compile A fu vt lt syms cmap b1) g1 isE vf ec d = mapM_dict (compile A fu vt lt syms cmap b2) g2 isE vf ec d).
     { intros V g1 g2 isE vf ec d Hg. induction d as [| [a b] d IHd]; cbn [mapM_dict]; auto.
       rewrite IHd, !IH, !Hg. reflexivity. }
-    destruct e; auto; rewrite !IH; erewrite Hd; auto.
+    destruct e; auto; rewrite !IH.
+    + rewrite (Hd _ (fun v => compile A fu vt lt syms cmap b1 (ENum v)) (fun v => compile A fu vt lt syms cmap b2 (ENum v))); auto.
+    + rewrite (Hd _ (compile A fu vt lt syms cmap b1) (compile A fu vt lt syms cmap b2)); auto.
   - destruct e; auto. rewrite !IH. reflexivity.
   - destruct e; auto. rewrite !IH. reflexivity.
   - destruct (children e); auto.
@@ -205,5 +207,313 @@ Proof.
 Qed.
 
 End COMPILE.
+
+(* ---------------------------------------------------------------- the state machine *)
+Notation lst := (@lstate F).
+
+(* same closures; the buffers have the same size unless no closure can look at them *)
+Definition sim (s s' : lst) : Prop :=
+  st_results s = st_results s' /\ st_fns s = st_fns s' /\ st_map s = st_map s' /\ st_syms s = st_syms s' /\
+  (st_map s = [] \/ length (st_buf s) = length (st_buf s')).
+
+Definition map_below (m : list (expr * nat)) (b : nat) : Prop := Forall (fun p => (snd p < b)%nat) m.
+
+Lemma assoc_below : forall m b s idx, map_below m b -> assoc m s = Some idx -> (idx < b)%nat.
+Proof.
+  induction m as [| [k v] m IH]; intros b s idx Hm Ha; cbn in Ha; [ discriminate | ].
+  inversion Hm; subst. destruct (expr_eqb k s); [ inversion Ha; subst; auto | eauto ].
+Qed.
+
+Lemma map_set_below : forall m b k v, map_below m b -> (v < b)%nat -> map_below (map_set m k v) b.
+Proof.
+  induction m as [| [k' v'] m IH]; intros b k v Hm Hv; cbn.
+  - constructor; auto.
+  - inversion Hm; subst. destruct (expr_eqb k' k); constructor; auto. apply IH; auto.
+Qed.
+
+Lemma map_below_mono : forall m b b', map_below m b -> (b <= b')%nat -> map_below m b'.
+Proof.
+  intros m b b' H Hle. unfold map_below in *. rewrite Forall_forall in *. intros p Hp. specialize (H p Hp). lia.
+Qed.
+
+(* slot discipline: closure i of fns reads slots < i; results read slots < number of fns *)
+Fixpoint fns_disc (i : nat) (fns : list (nat * @clo F)) : Prop :=
+  match fns with
+  | [] => True
+  | (fu, k) :: r => sb fu i k = true /\ fns_disc (S i) r
+  end.
+Definition disc (s : lst) : Prop :=
+  fns_disc 0 (st_fns s) /\
+  Forall (fun p => sb (fst p) (length (st_fns s)) (snd p) = true) (st_results s) /\
+  (length (st_fns s) <= length (st_buf s))%nat.
+
+Lemma fns_disc_app : forall fns i fu k, fns_disc i fns -> sb fu (i + length fns) k = true -> fns_disc i (fns ++ [(fu, k)]).
+Proof.
+  induction fns as [| [fu' k'] fns IH]; intros i fu k H Hk; cbn in *.
+  - rewrite Nat.add_0_r in Hk. auto.
+  - destruct H. split; auto. apply IH; auto. replace (S i + length fns)%nat with (i + S (length fns))%nat by lia. auto.
+Qed.
+
+Lemma compile_in_sim : forall s s' e, sim s s' -> map_below (st_map s) (length (st_buf s)) ->
+  map_below (st_map s) (length (st_buf s')) -> compile_in A vt lt s e = compile_in A vt lt s' e.
+Proof.
+  intros s s' e [Hr [Hf [Hm [Hs Hl]]]] Hb1 Hb2. unfold compile_in. rewrite <- Hm, <- Hs.
+  rewrite (compile_irrel (st_syms s) (st_map s) (length (st_buf s)) (length (st_buf s'))); auto.
+  intros x idx Ha. split; eapply assoc_below; eauto.
+Qed.
+
+Lemma compile_in_SB : forall s e fu k j, map_below (st_map s) j -> compile_in A vt lt s e = Ok (fu, k) -> sb fu j k = true.
+Proof.
+  intros s e fu k j Hm Hc. unfold compile_in in Hc.
+  destruct (compile A (eval_fuel e) vt lt (st_syms s) (st_map s) (length (st_buf s)) e) eqn:E; try discriminate.
+  inversion Hc; subst. eapply compile_SB; [ | exact E ]. intros x idx Ha. eapply assoc_below; eauto.
+Qed.
+
+(* the invariant carried through init: everything equal but the buffer contents, the map only
+   mentions slots that exist and that earlier closures write *)
+Definition inv (s s' : lst) : Prop :=
+  sim s s' /\ disc s /\ disc s' /\
+  map_below (st_map s) (length (st_fns s)) /\
+  map_below (st_map s) (length (st_buf s)) /\ map_below (st_map s) (length (st_buf s')).
+
+Definition with_results (s : lst) (k : nat * @clo F) : lst :=
+  mk_st (st_results s ++ [k]) (st_fns s) (st_map s) (st_buf s) (st_syms s).
+
+Lemma inv_with_results : forall s s' fu k, inv s s' -> sb fu (length (st_fns s)) k = true ->
+  inv (with_results s (fu, k)) (with_results s' (fu, k)).
+Proof.
+  intros s s' fu k [[Hr [Hf [Hm [Hs Hl]]]] [[D1 [D2 D3]] [[D1' [D2' D3']] [B1 [B2 B3]]]]] Hk.
+  unfold inv, sim, disc, with_results; cbn. rewrite Hr, <- Hf in *.
+  repeat split; auto; apply Forall_app; split; auto.
+Qed.
+
+Lemma push_results_inv : forall outs s s', inv s s' ->
+  snd (push_results A vt lt s outs) = snd (push_results A vt lt s' outs) /\
+  inv (fst (push_results A vt lt s outs)) (fst (push_results A vt lt s' outs)).
+Proof.
+  induction outs as [| e outs IH]; intros s s' Hi; cbn [push_results]; [ split; auto | ].
+  pose proof Hi as Hi0. destruct Hi as [Hsim [D [D' [B1 [B2 B3]]]]].
+  rewrite <- (compile_in_sim s s' e Hsim B2 B3).
+  destruct (compile_in A vt lt s e) as [[fu k] | | |] eqn:Ec; cbn; try (split; [ reflexivity | exact Hi0 ]).
+  apply IH. apply (inv_with_results s s' fu k); [ exact Hi0 | ].
+  eapply compile_in_SB; eauto.
+Qed.
+
+Lemma push_reduced_inv : forall reduced n i s s', inv s s' ->
+  snd (push_reduced A vt lt s reduced n i) = snd (push_reduced A vt lt s' reduced n i) /\
+  inv (fst (push_reduced A vt lt s reduced n i)) (fst (push_reduced A vt lt s' reduced n i)).
+Proof.
+  intros reduced. induction n as [| n IH]; intros i s s' Hi; cbn [push_reduced]; [ split; auto | ].
+  destruct (nth_error reduced i) as [e |]; [ | split; auto ].
+  pose proof Hi as Hi0. destruct Hi as [Hsim [D [D' [B1 [B2 B3]]]]].
+  rewrite <- (compile_in_sim s s' e Hsim B2 B3).
+  destruct (compile_in A vt lt s e) as [[fu k] | | |] eqn:Ec; cbn; try (split; [ reflexivity | exact Hi0 ]).
+  apply IH. apply (inv_with_results s s' fu k); [ exact Hi0 | ].
+  eapply compile_in_SB; eauto.
+Qed.
+
+Lemma sb_mono : forall j j', (j <= j')%nat -> forall fu k, sb fu j k = true -> sb fu j' k = true.
+Proof.
+  intros j j' Hle. induction fu as [| fu IH]; intros k H; [ reflexivity | ].
+  cbn [sb] in *. destruct k; auto.
+  - apply Nat.ltb_lt in H. apply Nat.ltb_lt. lia.
+  - rewrite forallb_forall in *. auto.
+  - apply andb_true_iff in H. destruct H. rewrite (IH _ H), (IH _ H0). reflexivity.
+  - rewrite forallb_forall in *. auto.
+  - apply andb_true_iff in H. destruct H as [H0 H]. rewrite (IH _ H0). cbn.
+    rewrite forallb_forall in *. intros p Hp. specialize (H p Hp). apply andb_true_iff in H. destruct H as [H1 H2].
+    rewrite (IH _ H2). destruct (fst p); [ rewrite (IH _ H1) | ]; reflexivity.
+  - rewrite forallb_forall in *. auto.
+  - rewrite forallb_forall in *. auto.
+  - rewrite forallb_forall in *. intros p Hp. specialize (H p Hp). apply andb_true_iff in H. destruct H as [H1 H2].
+    rewrite (IH _ H1), (IH _ H2). reflexivity.
+Qed.
+
+Lemma push_reps_inv : forall reps s s', inv s s' -> st_results s = [] ->
+  length (st_buf s) = length (st_buf s') ->
+  (length (st_fns s) + length reps <= length (st_buf s))%nat ->
+  snd (push_reps A vt lt s reps) = snd (push_reps A vt lt s' reps) /\
+  inv (fst (push_reps A vt lt s reps)) (fst (push_reps A vt lt s' reps)) /\
+  st_results (fst (push_reps A vt lt s reps)) = [] /\
+  length (st_buf (fst (push_reps A vt lt s reps))) = length (st_buf (fst (push_reps A vt lt s' reps))).
+Proof.
+  induction reps as [| [sym ex] reps IH]; intros s s' Hi Hres Hlen Hcap; cbn [push_reps];
+    [ cbn; split; [ reflexivity | split; [ exact Hi | split; auto ] ] | ].
+  pose proof Hi as Hi0. destruct Hi as [Hsim [D [D' [B1 [B2 B3]]]]].
+  rewrite <- (compile_in_sim s s' ex Hsim B2 B3).
+  destruct (compile_in A vt lt s ex) as [[fu k] | | |] eqn:Ec; cbn;
+    try (split; [ reflexivity | split; [ exact Hi0 | split; auto ] ]).
+  destruct Hsim as [Hr [Hf [Hm [Hs Hl]]]]. destruct D as [D1 [D2 D3]]. destruct D' as [D1' [D2' D3']].
+  assert (Hk : sb fu (length (st_fns s)) k = true) by (eapply compile_in_SB; eauto).
+  cbn [length] in Hcap.
+  apply IH; cbn; auto.
+  - unfold inv, sim, disc; cbn. rewrite <- Hf, <- Hm, <- Hr, Hres. rewrite app_length. cbn [length].
+    repeat split; auto.
+    + apply fns_disc_app; auto.
+    + lia.
+    + apply fns_disc_app; auto.
+    + lia.
+    + apply map_set_below; [ | lia ]. apply (map_below_mono _ _ _ B1). lia.
+    + apply map_set_below; auto. lia.
+    + apply map_set_below; auto. lia.
+  - rewrite app_length. cbn. lia.
+Qed.
+
+(* ---- call ---- *)
+Definition agree_below (i : nat) (b1 b2 : list F) : Prop :=
+  forall x, (x < i)%nat -> nth_error b1 x = nth_error b2 x.
+
+Lemma set_nth_length : forall i v (l : list F), length (set_nth i v l) = length l.
+Proof. induction i; intros v [| a l]; cbn; auto. Qed.
+
+Lemma set_nth_same : forall i v (l : list F), (i < length l)%nat -> nth_error (set_nth i v l) i = Some v.
+Proof. induction i; intros v [| a l] H; cbn in *; try lia; auto. apply IHi. lia. Qed.
+
+Lemma set_nth_other : forall i x v (l : list F), x <> i -> nth_error (set_nth i v l) x = nth_error l x.
+Proof.
+  induction i; intros x v [| a l] H; cbn; auto; destruct x; cbn; auto; try lia.
+Qed.
+
+Lemma run_fns_sim : forall inp fns i b1 b2,
+  fns_disc i fns -> agree_below i b1 b2 -> length b1 = length b2 ->
+  snd (run_fns A inp b1 i fns) = snd (run_fns A inp b2 i fns) /\
+  length (fst (run_fns A inp b1 i fns)) = length (fst (run_fns A inp b2 i fns)) /\
+  length (fst (run_fns A inp b1 i fns)) = length b1 /\
+  (snd (run_fns A inp b1 i fns) = Ok tt ->
+   agree_below (i + length fns) (fst (run_fns A inp b1 i fns)) (fst (run_fns A inp b2 i fns))).
+Proof.
+  intros inp. induction fns as [| [fu k] fns IH]; intros i b1 b2 Hd Ha Hl; cbn [run_fns].
+  - cbn. repeat split; auto. intros _. rewrite Nat.add_0_r. auto.
+  - destruct Hd as [Hk Hd].
+    rewrite (run_SB inp b1 b2 i Ha (or_intror Hl) fu k Hk).
+    destruct (run A fu inp b2 k) as [v | | |]; cbn [err_of fst snd];
+      try (split; [ reflexivity | split; [ assumption | split; [ reflexivity | intro Hx; discriminate Hx ] ] ]).
+    rewrite <- Hl. destruct (i <? length b1)%nat eqn:Ei; cbn [fst snd];
+      [ | split; [ reflexivity | split; [ assumption | split; [ reflexivity | intro Hx; discriminate Hx ] ] ] ].
+    apply Nat.ltb_lt in Ei.
+    assert (Ha' : agree_below (S i) (set_nth i v b1) (set_nth i v b2)).
+    { intros x Hx. destruct (Nat.eq_dec x i) as [-> | Hne].
+      - rewrite !set_nth_same; auto. lia.
+      - rewrite !set_nth_other; auto. apply Ha. lia. }
+    assert (Hl' : length (set_nth i v b1) = length (set_nth i v b2)) by (rewrite !set_nth_length; auto).
+    destruct (IH (S i) _ _ Hd Ha' Hl') as [H1 [H2 [H3 H4]]].
+    repeat split; auto.
+    + rewrite H3. apply set_nth_length.
+    + intros Hok. cbn [length]. replace (i + S (length fns))%nat with (S i + length fns)%nat by lia. auto.
+Qed.
+
+Fixpoint calls (s : lst) (vs : list (list F)) : list (res (list F)) :=
+  match vs with
+  | [] => []
+  | v :: r => snd (call A s v) :: calls (fst (call A s v)) r
+  end.
+
+(* what [call] needs of two states *)
+Definition csim (s s' : lst) : Prop :=
+  st_results s = st_results s' /\ st_fns s = st_fns s' /\ disc s /\
+  (st_fns s = [] \/ length (st_buf s) = length (st_buf s')).
+
+Lemma call_csim : forall s s' v, csim s s' ->
+  snd (call A s v) = snd (call A s' v) /\ csim (fst (call A s v)) (fst (call A s' v)).
+Proof.
+  intros s s' v [Hr [Hf [[D1 [D2 D3]] Hl]]]. unfold call. rewrite <- Hf, <- Hr.
+  destruct Hl as [Hnil | Hl].
+  - (* no CSE closures: the buffers are never read *)
+    rewrite Hnil in *. cbn [run_fns]. cbn.
+    split.
+    + apply mapM_ext. intros p Hp. rewrite Forall_forall in D2.
+      apply (run_SB v (st_buf s) (st_buf s') 0); [ intros i Hi; lia | left; reflexivity | apply D2; auto ].
+    + unfold csim, disc; cbn. repeat split; auto.
+  - pose proof (run_fns_sim v (st_fns s) 0 (st_buf s) (st_buf s') D1 (fun x Hx => ltac:(lia)) Hl) as [H1 [H2 [H3 H4]]].
+    destruct (run_fns A v (st_buf s) 0 (st_fns s)) as [b1 r1] eqn:E1.
+    destruct (run_fns A v (st_buf s') 0 (st_fns s)) as [b2 r2] eqn:E2. cbn in *. subst r2.
+    split.
+    + destruct r1 as [[] | | |]; auto.
+      apply mapM_ext. intros p Hp. rewrite Forall_forall in D2.
+      apply (run_SB v b1 b2 (length (st_fns s))); auto. apply H4; reflexivity.
+    + unfold csim, disc. destruct r1 as [[] | | |]; cbn; repeat split; auto; try lia; right; auto.
+Qed.
+
+Lemma calls_csim : forall vs s s', csim s s' -> calls s vs = calls s' vs.
+Proof.
+  induction vs as [| v vs IH]; intros s s' H; cbn [calls]; auto.
+  destruct (call_csim s s' v H) as [H1 H2]. rewrite H1. f_equal. apply IH. auto.
+Qed.
+
+(* ---- init ---- *)
+Lemma push_results_fns_buf : forall outs s,
+  st_fns (fst (push_results A vt lt s outs)) = st_fns s /\ st_buf (fst (push_results A vt lt s outs)) = st_buf s.
+Proof.
+  induction outs as [| e outs IH]; intros s; cbn [push_results]; auto.
+  destruct (compile_in A vt lt s e); cbn; auto.
+  match goal with |- context [push_results A vt lt ?t outs] => destruct (IH t) as [H1 H2]; rewrite H1, H2 end. auto.
+Qed.
+
+Lemma push_reduced_buf : forall reduced n i s,
+  st_buf (fst (push_reduced A vt lt s reduced n i)) = st_buf s.
+Proof.
+  intros reduced. induction n as [| n IH]; intros i s; cbn [push_reduced]; auto.
+  destruct (nth_error reduced i); auto. destruct (compile_in A vt lt s e); cbn; auto. rewrite IH. reflexivity.
+Qed.
+
+Lemma resize_length : forall n (b : list F), length (resize A n b) = n.
+Proof.
+  intros n b. unfold resize. rewrite app_length, firstn_length, repeat_length. lia.
+Qed.
+
+Lemma inv_start : forall b1 b2 xs, inv (mk_st [] [] [] b1 xs) (mk_st [] [] [] b2 xs).
+Proof.
+  intros. unfold inv, sim, disc, map_below; cbn. repeat split; auto; try constructor; lia.
+Qed.
+
+Lemma inv_csim : forall s s', inv s s' ->
+  (st_fns s = [] \/ length (st_buf s) = length (st_buf s')) -> csim s s'.
+Proof.
+  intros s s' [[Hr [Hf _]] [D _]] H. unfold csim. auto.
+Qed.
+
+Section MAIN.
+Variable cf : bool.
+
+(* an init that starts with an empty map (the repaired code always does; the old code when
+   the map of the state is empty) is indistinguishable from the same init on a fresh object *)
+Theorem reinit_fresh_gen : forall s xs es c,
+  (cf = true \/ st_map s = []) ->
+  snd (init A vt lt cf s xs es c) = snd (init A vt lt cf st0 xs es c) /\
+  (snd (init A vt lt cf s xs es c) = Ok tt ->
+   forall vs, calls (fst (init A vt lt cf s xs es c)) vs = calls (fst (init A vt lt cf st0 xs es c)) vs).
+Proof.
+  intros s xs es c Hmap. unfold init.
+  assert (Hm : (if cf then [] else st_map s) = @nil (expr * nat)).
+  { destruct Hmap as [-> | ->]; auto. destruct cf; auto. }
+  rewrite Hm. replace (if cf then [] else st_map (@st0 F)) with (@nil (expr * nat)) by (destruct cf; reflexivity).
+  cbn [st_map st_buf st0].
+  destruct c as [| reps reduced | cls].
+  - (* no CSE *)
+    pose proof (push_results_inv es _ _ (inv_start (st_buf s) [] xs)) as [Hr Hi].
+    split; auto. intros _ vs. apply calls_csim. apply inv_csim; auto.
+    left. rewrite (proj1 (push_results_fns_buf es _)). reflexivity.
+  - (* CSE *)
+    set (s2 := mk_st [] [] [] (resize A (length reps) (st_buf s)) xs).
+    set (s2' := mk_st [] [] [] (resize A (length reps) []) xs).
+    assert (Hl2 : length (st_buf s2) = length (st_buf s2')) by (cbn; rewrite !resize_length; reflexivity).
+    assert (Hcap : (length (st_fns s2) + length reps <= length (st_buf s2))%nat) by (cbn; rewrite resize_length; lia).
+    pose proof (push_reps_inv reps s2 s2' (inv_start _ _ xs) eq_refl Hl2 Hcap) as [Hr3 [Hi3 [Hres3 Hl3]]].
+    destruct (push_reps A vt lt s2 reps) as [s3 r3] eqn:E3.
+    destruct (push_reps A vt lt s2' reps) as [s3' r3'] eqn:E3'. cbn [fst snd] in *. subst r3'.
+    destruct r3 as [[] | | |]; try (split; [ reflexivity | intro Hx; discriminate Hx ]).
+    pose proof (push_reduced_inv reduced (length es) 0 s3 s3' Hi3) as [Hr4 Hi4].
+    pose proof (push_reduced_buf reduced (length es) 0 s3) as Hb4.
+    pose proof (push_reduced_buf reduced (length es) 0 s3') as Hb4'.
+    destruct (push_reduced A vt lt s3 reduced (length es) 0) as [s4 r4] eqn:E4.
+    destruct (push_reduced A vt lt s3' reduced (length es) 0) as [s4' r4'] eqn:E4'. cbn [fst snd] in *. subst r4'.
+    destruct r4 as [[] | | |]; try (split; [ reflexivity | intro Hx; discriminate Hx ]).
+    split; [ reflexivity | ]. intros _ vs. apply calls_csim.
+    destruct Hi4 as [[Hr [Hf _]] [[D1 [D2 D3]] _]].
+    unfold csim, disc; cbn. repeat split; auto. right. rewrite Hb4, Hb4'. auto.
+  - split; [ reflexivity | intro Hx; discriminate Hx ].
+Qed.
+
+End MAIN.
 
 End REINIT.
